@@ -29,6 +29,14 @@ def run_and_judge(ctx, jobs, own_prefixes, nontrivial_fn, known_key_fn=None, sea
         nsearch_runs += out["runs"]
         nsearch_done += int(out["exhaustive"])
     distinct = gwrun.dedupe(results)
+    hangs = [r for r in distinct if "harness_hang" in r]
+    distinct = [r for r in distinct if "harness_hang" not in r]
+    if hangs:
+        # the baton scheduler lost the baton (a defect of the harness, seen about once in 10^5 runs): the run is discarded, never judged
+        ctx.note(f"{len(hangs)} simulated run(s) discarded after making no progress for minutes of wall-clock time (harness): "
+                 f"{json.dumps(hangs[0]['program'])[:200]} {hangs[0]['chooser']}")
+        if len(hangs) > max(3, len(results) // 2000):
+            ctx.machinery(f"{len(hangs)} simulated runs hung")
     herr = [r for r in distinct if "harness_error" in r]
     if herr:
         ctx.machinery("simulation harness failed:\n" + herr[0]["harness_error"][-1500:])
@@ -53,7 +61,7 @@ def run_and_judge(ctx, jobs, own_prefixes, nontrivial_fn, known_key_fn=None, sea
                        "verdict": vd, "events": r["events"]}, key=key)
     return {"runs": len(jobs) + nsearch_runs, "bounded_search_runs": nsearch_runs, "bounded_searches_finished": nsearch_done,
             "bounded_searches": len(list(searches)), "distinct": len(distinct), "nontrivial": nontrivial, "hist": hist,
-            "other_property_rejections": others, "budget_exhausted_runs": len(budget),
+            "other_property_rejections": others, "budget_exhausted_runs": len(budget), "harness_hangs_discarded": len(hangs),
             "sample": {"program": distinct[0]["program"], "events": distinct[0]["events"][:16]} if distinct else None}
 
 
@@ -85,6 +93,10 @@ def chanlife_part(ctx, own_prefixes, depth, known_key_fn=None):
     prefixes = {w[:i] for w in allw for i in range(len(w))}
     maximal = [w for w in words if w and w not in prefixes]
     res = gwrun.run_chanlife([[list(o) for o in w] for w in maximal])
+    nhang = sum(1 for x in res if "harness_hang" in x)
+    if nhang > 3:
+        ctx.machinery(f"{nhang} ChanLife replays hung")
+    res = [x for x in res if "harness_hang" not in x]
     for x in res:
         if "harness_error" in x or x.get("error") or len(x.get("obs", [])) != len(x["ops"]):
             ctx.machinery(f"ChanLife replay failed on {x['ops']}: {x.get('harness_error') or x.get('error') or x.get('outcome')}")
